@@ -19,6 +19,6 @@ SPEC = {
     "trusted": ["the goroutine-group LTS (Model/Group.v) is tied to the code by the five extracted guards only (gen/ExtGroup.v: select cases next to <-ctx.Done(), ws.stop() before returns, cancel() before eg.Wait()) and by the fault-injection runs; its atomic steps are the blocking points",
                 "a WriteTo call in progress eventually returns (internal step of the LTS)"],
     "assumptions": ["fairness: the Go scheduler eventually runs an enabled goroutine; the LTS theorem is over every interleaving but assumes enabled internal steps are eventually taken"],
-    "level_text": "Theorems (Coq): (a) LTS of the advertiser's goroutine group with guards extracted from the source: every reachable state satisfies the invariant; once the group's context is cancelled every continuation (any interleaving, arrivals, failures) reaches 'all members returned' within measure(s) steps and until then an internal step is always enabled (no deadlock); afterwards nothing is read/written and no worker starts; the two repaired defects are proved to be reachable deadlocks of the same LTS with the old guards. (b) receive retry: waits 0,50,100,150 ms, the 5th consecutive timeout is an error after 200 ms, any message resets. (c) dialer policy/back-off (C10dial). (d) link readiness (C10link): the check passes iff the interface is up and owns a 16-byte IPNet address in fe80::/10, otherwise link-not-ready (or the address query's error, class intact); a missing / down / address-less interface makes Dialer.dial fail with the recoverable class before anything is opened. Tie: goextract guards + fault injection into the real Advertiser/Monitor under virtual time + scripted Dialer runs.",
+    "level_text": "Theorems (Coq): (a) LTS of the advertiser's goroutine group with guards extracted from the source: every reachable state satisfies the invariant; once the group's context is cancelled every continuation (any interleaving, arrivals, failures) reaches 'all members returned' within measure(s) steps and until then an internal step is always enabled (no deadlock); afterwards nothing is read/written and no worker starts; the two repaired defects are proved to be reachable deadlocks of the same LTS with the old guards. (b) receive retry: waits 0,50,100,150 ms, the 5th consecutive timeout is an error after 200 ms, any message resets. (c) dialer policy/back-off and the full cancellation theorem C10_cancel (C10dial). (d) link readiness (C10link): the check passes iff the interface is up and owns a 16-byte IPNet address in fe80::/10, otherwise link-not-ready (or the address query's error, class intact); a missing / down / address-less interface makes Dialer.dial fail with the recoverable class before anything is opened. Tie: goextract guards + fault injection into the real Advertiser/Monitor under virtual time + scripted Dialer runs.",
     "level_note": "Trusted: Coq kernel + vm_compute; goextract (guards, retries, back-off unit, dialer constants); Go drivers, fake Conn, synctest; LTS atomicity = blocking points (data races out of reach).",
 }
